@@ -469,6 +469,24 @@ def check(ctx):
     ctx.ob('C17.R3.parser-criteria', 'parse_san', crit == {'kind', 'file', 'rank', 'target', 'promotion'} and opt_ok,
            'parse_san matches candidates by piece kind, optional file, optional rank, target square and optional promotion (%s)' % sorted(crit),
            site=ps.loc(loop_if) if loop_if else ps.loc())
+    # every way parse_san gives up is one the inclusion argument above accounts for: no regex match, an impossible promotion
+    # piece, not exactly one candidate. A further rejection could refuse strings the printer produces.
+    from rules.norm import Norm as _N
+    nps = _N(ps, inline=False)
+    n_rej = 0
+    for n in ps.all_nodes():
+        if n['k'] != 'ReturnStmt' or not kids(n) or nps.s(kids(n)[0]) != '0':
+            continue
+        n_rej += 1
+        gf = guard_facts(ps, n)
+        inner = (nps.show_cond(gf[0][0]), gf[0][1]) if gf else ('', True)
+        known = ('regex_match(' in inner[0] and not inner[1]) or \
+                ('promotion_piece_kind' in inner[0] and inner[1] and 'matching' not in inner[0]) or \
+                (inner[0].replace(' ', '') in ('(nematching_move_count1)',) and inner[1])
+        if not known:
+            raise AnalysisBroken('parse_san gives up at %s under `%s` (%s): a rejection the inclusion argument does not cover'
+                                 % (ps.loc(n), inner[0], inner[1]))
+    ctx.floor('C17.R1.rejections', n_rej, 3, 'NO_MOVE returns in parse_san')
     cnt = [n for n in ps.all_nodes() if n['k'] == 'IfStmt' and canon(ps, kids(n)[0], inline=False).replace(' ', '') == '(matching_move_count!=1)']
     ctx.ob('C17.R3.unique-match', 'parse_san', len(cnt) == 1,
            'parse_san answers only when exactly one legal move matches', site=ps.loc())
